@@ -625,6 +625,15 @@ func c04Other(c *core.Ctx, st *c04State, k int) {
 			for _, it := range []*gen.Type{tStr, tBool, tAny} {
 				c04Judge(c, "slice-bound|"+it.String()+"|"+ts, decl+"i:"+it.String()+"\nx := a[i:]\nprint (typeof x)\n", c04Expect{accept: false})
 			}
+			// every bound position: start only, end only, both (each bound is judged on its own;
+			// a num variable is 0, so a[0:0], a[0:] and a[:0] also run)
+			for _, it := range []*gen.Type{tNum, tStr, tBool, tAny} {
+				for _, jt := range []*gen.Type{tNum, tStr, tBool, tAny} {
+					both := ok && it.K == gen.Num && jt.K == gen.Num
+					c04Judge(c, "slice-bounds|"+it.String()+":"+jt.String()+"|"+ts, decl+"i:"+it.String()+"\nj:"+jt.String()+"\nx := a[i:j]\nprint (typeof x)\n", c04Expect{accept: both, typeofS: ts})
+				}
+				c04Judge(c, "slice-end|"+it.String()+"|"+ts, decl+"j:"+it.String()+"\nx := a[:j]\nprint (typeof x)\n", c04Expect{accept: ok && it.K == gen.Num, typeofS: ts})
+			}
 		case 3: // field access
 			c.Cover("context", "field")
 			res := ""
